@@ -327,4 +327,8 @@ def run(ctx):
         res.add(Finding('C08', 'C08.h', 'R-AGREE', m.file, m.qualname, n.lineno, norm(n)[:100],
                         'the dedicated worker is made a daemon process: a daemonic process may not have children, so a replay that starts a process '
                         '(pool, subprocess helper) fails in the worker while the same replay succeeds in-process - the two modes give different verdicts'))
+    # ---- C08.m one comparison per id, in the order the ids were given: the studio's grouping of explicit ids (shared with C19.c)
+    from . import common as _cm8
+    _cm8.import_clauses(ctx, res, 'C19', ['C19.c'], 'C08', 'C08.m', 'R-PROV',
+                        'explicit ids reach the equalizer grouped by category, each once, in the order given', floor=2)
     return res
